@@ -49,7 +49,7 @@ def apply_end(scopes, kind, spec):
 class C08(Check):
     ID = 'C08'
     TRACE_FILES = ('protocol/dispatcher.py', 'modulebase.py')
-    TIERS = {'quick': {'runs': 3000, 'wall': 75}, 'thorough': {'runs': 300000, 'wall': 800}}
+    TIERS = {'quick': {'runs': 9000, 'wall': 75}, 'thorough': {'runs': 300000, 'wall': 800}}
     RULE = ('case = 2 generated modules (poll threads changing values) + 0..2 extra driver tasks + 1..3 wire '
             'connections with generated activate/deactivate/*IDN?/close sequences over global, module and '
             'parameter scopes; distinct = different (case digest, schedule digest); non-trivial = at least one '
